@@ -57,6 +57,8 @@ class Assembler:
             if match:
                 # check if opcode supports this addressing mode
                 try:
+                    if opcode == '???':  # placeholder of undefined opcodes
+                        raise ValueError
                     bytes = [self._mpu.disassemble.index((opcode, mode))]
                 except ValueError:
                     continue
